@@ -12,13 +12,13 @@ CHECKS = {
     "C07": dict(level="proof", technique="table rules over ConsistentUnits/RelatedUnitSystems initialisers + conversion factors from the affine interpretation vs products of system base units",
                 text="Every (system, unit type) entry and every reverse lookup is an obligation discharged exactly: coherent magnitude, total forward tables, reverse table = uniquely-consistent units, lookup idioms.",
                 note="trusted: clang front end, unit-symbol oracle, std::map semantics", ref="3/C07"),
-    "C08": dict(level="proof", technique="table rules (totality, uniqueness, round trip) against the EnumDecls; every spelling parsed by an independent unit grammar and compared in magnitude; term evaluation of the lookup idioms",
+    "C08": dict(level="proof", technique="table rules (totality, uniqueness, round trip) against the EnumDecls; every spelling parsed by an independent unit grammar and compared in magnitude; term evaluation of the lookup idioms; structural rule that table texts are string literals",
                 text="One obligation per enumeration, enumerator, spelling and lookup function; all discharged exactly. 'Other strings parse to nothing' follows from the checked-find idiom.",
                 note="trusted: clang front end, oracle/units.py lexicon, unordered_map first-key-wins semantics", ref="3/C08"),
     "C17": dict(level="proof", technique="record-layout facts (clang ASTRecordLayout: size, single member, no vptr, trivially copyable, standard layout) for every instantiated class x 3 numeric types; term evaluation of Zero/Value/SetValue/MutableValue; g++/clang static_assert batch in the thorough tier",
                 text="One obligation per class and numeric type and per accessor; all are compile-time facts read from the type-checked program, so the decided part is the whole statement.",
                 note="trusted: clang's record layout = Itanium ABI layout used by g++ (cross-checked by the g++ static_assert batch in the thorough tier)", ref="3/C17"),
-    "C19": dict(level="proof", technique="initialisation-order classification of every namespace-scope variable per [basic.start.dynamic] + who-reads walk over all instantiated bodies; known-findings file for the triaged defect",
+    "C19": dict(level="proof", technique="initialisation-order classification of every namespace-scope variable per [basic.start.dynamic] + who-reads walk over all instantiated bodies; known-findings file for the triaged defect; path-sensitive evaluation of every function without a run-time unit parameter that can reach a table reader",
                 text="Every PhQ namespace-scope variable is classified constant / partially-ordered / ordered / unordered; any library function reading an unordered one is reported. On the pinned tree this reports the conversion dispatch tables (genuine defect, replayed: crash before main with g++), recorded as two known findings; every other table family is proved ordered before user objects.",
                 note="trusted: clang's TemplateSpecializationKind/isInline/hasConstantInitialization; the C++17 standard's ordering rules", ref="3/C19, 4.3"),
     "C06": dict(level="proof", technique="unit-symbol grammar -> exponent vectors vs RelatedDimensions initialisers; term evaluation of Dimensions(); case-complete evaluation of the Print decision trees; 3^7 ordering enumeration",
@@ -30,7 +30,7 @@ CHECKS = {
     "C03": dict(level="proof", technique="units-of-measure type checking: every relation body evaluated to terms and interpreted in a dimension domain (Q^7 exponent vectors, polymorphic zero); operator signatures checked from resolved types; clang diagnostics for well-formedness",
                 text="Dimensional homogeneity is exactly what the dimension domain computes, so the decided part is the whole statement: one obligation per relation body and per operator signature, for all three numeric types, all inputs.",
                 note="trusted: clang front end; RelatedDimensions tables (checked against unit symbols by C06); the evaluator", ref="3/C03"),
-    "C04": dict(level="proof", technique="exact-tree abstract interpretation: each operator / compound assignment / twin constructor evaluated interprocedurally to the operation tree of every result slot, compared with one IEEE operation on the corresponding operand slots in written order",
+    "C04": dict(level="proof", technique="exact-tree abstract interpretation: each operator / compound assignment / twin constructor evaluated interprocedurally to the operation tree of every result slot, compared with one IEEE operation on the corresponding operand slots in written order; aliasing analysis of every mutating member with a reference parameter",
                 text="A single IEEE-754 operation is correctly rounded by definition, so showing each result slot is exactly one +,-,*,/ node on the right operands (in order) decides the statement for IEEE evaluation; compound assignments and twins are compared tree-for-tree.",
                 note="trusted: clang front end, evaluator; excludes -ffast-math builds (stated)", ref="3/C04"),
     "C16": dict(level="proof", technique="exact-tree abstract interpretation of every converting constructor/assignment for each ordered pair of numeric types: slot i = one cast of source slot i (directions: then the normalisation formula, decided algebraically)",
@@ -39,10 +39,10 @@ CHECKS = {
     "C05": dict(level="other", technique="inverse pairs enumerated from resolved signatures; symbolic composition of algebraic normal forms (sympy, positive symbols) compared with the identity",
                 text="Decides the algebraic inverse law G(F(a,b..),b..) = a for every declared pair (about 1170 per numeric type), a necessary condition of the property; the few-ulp clause is decided by an a-priori forward error bound (relative-error domain, standard model) for the round trips without subtraction of rounded values (about 60 %: <= 8 u), and not decided where cancellation can occur.",
                 note="trusted: clang front end, evaluator, sympy normalisation; pairing rule documented in DESIGN 3/C05", ref="3/C05"),
-    "C09": dict(level="other", technique="polynomial normal forms of every tensor kernel and product overload compared with index-notation definitions (oracle/tensor_algebra.py) on 3x3/3-vector embeddings; inverse guard shape",
+    "C09": dict(level="other", technique="polynomial normal forms of every tensor kernel and product overload compared with index-notation definitions (oracle/tensor_algebra.py) on 3x3/3-vector embeddings; inverse guard shape; per-member component-access rules (accessors, setters, array forms, embeddings); aliasing analysis",
                 text="Decides the formula clause for all inputs (polynomial identity => exact on integer-valued inputs) and the absent-iff-singular clause; the few-ulp clause on non-integer inputs is decided by an a-priori forward error bound for the kernels without cancellation (258 of 342 instances: <= 3 u) and not decided for dot/cross/determinant/products.",
                 note="trusted: clang front end, evaluator, sympy; oracle written from index notation", ref="3/C09"),
-    "C18": dict(level="other", technique="definitional functions located by parameter types; algebraic normal form compared with a table of textbook formulas (oracle/formulas.py, 104 entries); forward relative-error domain for the few-ulp clause; narrowing scan",
+    "C18": dict(level="other", technique="definitional functions located by parameter types; algebraic normal form compared with a table of textbook formulas (oracle/formulas.py, 104 entries); forward relative-error domain for the few-ulp clause; narrowing scan; conditioning compared with the definition as written (forward relative-error domain on both forms)",
                 text="Decides which real function each definitional relation computes, constants included, for all positive inputs and the three numeric types (104 formulas); the few-ulp clause is decided by an a-priori forward error bound for the 98 formulas without subtraction of rounded intermediates (<= 5 u) and not decided for the remaining 6.",
                 note="trusted: clang front end, evaluator, sympy, the formula table", ref="3/C18, Appendix B"),
     "C10": dict(level="other", technique="typestate / who-may-write analysis of the stored vector of Direction and PlanarDirection (every constructor, mutator and producer evaluated and classified), syntactic write scan over all bodies, algebraic rules for Magnitude / accessors / scalar x direction constructors",
@@ -54,16 +54,16 @@ CHECKS = {
     "C12": dict(level="other", technique="term evaluation of the 20 constructors / 7 accessors / all Stress-Strain overloads; elasticity identities decided by polynomial normalisation modulo the radicals, root selection by exact evaluation of the terms at rational admissible materials; override table",
                 text="Decides that every constructor stores the (mu, lambda) of the material its inputs denote, that accessors report the identities, that stress = 2 mu eps + lam tr(eps) I with the exact inverse for all three overloads, argument-independence of the stubs, and override completeness. Per-precision accuracy is not decided.",
                 note="trusted: clang front end, evaluator, sympy, oracle/elasticity.py", ref="3/C12"),
-    "C13": dict(level="other", technique="term evaluation of every Stress/StrainRate/Strain overload of both Newtonian fluid classes; slot-wise algebraic comparison with 2 mu D (+ mu_b tr(D) I) and its inverse; leaf-set independence; override table",
+    "C13": dict(level="other", technique="term evaluation of every Stress/StrainRate/Strain overload of both Newtonian fluid classes; slot-wise algebraic comparison with 2 mu D (+ mu_b tr(D) I) and its inverse; leaf-set independence; override table; case analysis on conditionals over model parameters",
                 text="Decides the linear viscous law and its exact inverse for all three overloads of both classes and all numeric types, the zero stubs, the ignored strain argument and the zero bulk viscosity default. Per-precision accuracy is not decided.",
                 note="trusted: clang front end, evaluator, sympy, oracle/elasticity.py", ref="3/C13"),
     "C02": dict(level="other", technique="data-flow / term evaluation of every conversion entry point with concrete unit enumerators; each result slot's affine map over Q(pi) compared with the composition of the Conversion kernels of C01; copying forms shown not to modify their argument",
                 text="Decides that construction converts once, that Value/StaticValue/Create/Print/JSON/XML/YAML(unit) and all 20 free convert overloads for every container shape apply exactly From_Y o To_X slot by slot (hence agree with the scalar conversion), that unit-to-itself is the identity map and that copying forms leave the argument unchanged. The size of the read-back rounding error is bounded only through C01.R4.",
                 note="trusted: clang front end, evaluator; quick tier: 3 units per unit type for member entry points, thorough tier: all units", ref="3/C02"),
-    "C15": dict(level="other", technique="interval analysis of the decision tree of PhQ::Print<T>; string-template evaluation of all Print/JSON/XML/YAML members (JSON parsed, XML/YAML matched); operator<< = Print()",
+    "C15": dict(level="other", technique="interval analysis of the decision tree of PhQ::Print<T>; string-template evaluation of all Print/JSON/XML/YAML members (JSON parsed, XML/YAML matched); operator<< = Print(); which Print<T> prints each number and through which types the value passed",
                 text="Decides notation, precision (max_digits10+1 significant digits per decade), zero handling, component order, labels, unit abbreviation and JSON well-formedness for all values and types, and that parsing uses the matching strto*. Bit-exact parse-back then follows from the IEEE round-trip theorem given a correctly rounding libc, which is trusted, not checked.",
                 note="trusted: clang front end, evaluator, libc printf/strto* correct rounding", ref="3/C15"),
-    "C20": dict(level="other", technique="structural rules over all instantiated bodies: external callees classified by resolved declaration (noexcept / allocation-only / may-throw), may-throw calls discharged by table totality or an enclosing catch(...), unchecked lookups tied to total tables, definite initialisation via the term evaluator, scans for casts to enum types and signed arithmetic, positive controls in every run",
+    "C20": dict(level="other", technique="structural rules over all instantiated bodies: external callees classified by resolved declaration (noexcept / allocation-only / may-throw), may-throw calls discharged by table totality or an enclosing catch(...), unchecked lookups tied to total tables, definite initialisation via the term evaluator, scans for casts to enum types and signed arithmetic, positive controls in every run; member-initialisation order in every class with state; dangling references and string views; tables through aliases and parameters",
                 text="Decides the clauses the statement names: every lookup hits, no exception other than bad_alloc can escape, the parsers are total, no uninitialised local or member reaches a result, no invalid enumerator or signed overflow can be produced. General memory safety beyond these clauses is not decided (static analysis cannot prove absence of all UB).",
                 note="trusted: clang front end; the callee classification table in vf_lib/props/c20.py (unclassified callees make the check inconclusive); libstdc++ default stream exception mask", ref="3/C20"),
 }
